@@ -13,7 +13,7 @@ sh(f"rm -rf {C}; git -C /repo worktree remove --force {R} 2>/dev/null; git -C /r
 sh(f"mkdir -p {C} && rsync -a --exclude .git --exclude replays --exclude bin --exclude seeded {V}/ {C}/")
 sh(f"sed -i 's#=> /repo#=> {R}#' {C}/harness/go.mod && sed -i 's#\"/repo\"#\"{R}\"#g; s#\"/repo/go.sum\"#\"{R}/go.sum\"#' {C}/check")
 ids=sys.argv[1:] or sorted(d for d in os.listdir(f"{V}/seeded") if os.path.isdir(f"{V}/seeded/{d}"))
-extra={"C11-rib-ops-not-serialised":["C11"],"C05-nonatomic-election":["C05","C11"],"C07-getrib-unlocks-around-send":["C07","C11"],"C19-get-response-check-stops-after-first-want":["C19","C17"],"C13-reset-keeps-requests-buffered-for-dead-sender":["C13","C14"],"C02-delete-judged-outside-transaction-lock":["C02","C11"],"C11-election-rlock-held-across-result-handoff":["C11","C10"],"C15-nhg-replace-kept-next-hop-leaks-reference":["C15","C03"],"C04-flush-gate-orders-ids-with-words-swapped":["C04","C08"],"C02-replaced-entrys-group-uncounted-in-new-entrys-instance":["C02","C03"],"C19-get-check-lets-a-group-stand-in-for-a-next-hop":["C19","C17"]}
+extra={"C11-rib-ops-not-serialised":["C11"],"C05-nonatomic-election":["C05","C11"],"C07-getrib-unlocks-around-send":["C07","C11"],"C19-get-response-check-stops-after-first-want":["C19","C17"],"C13-reset-keeps-requests-buffered-for-dead-sender":["C13","C14"],"C02-delete-judged-outside-transaction-lock":["C02","C11"],"C11-election-rlock-held-across-result-handoff":["C11","C10"],"C15-nhg-replace-kept-next-hop-leaks-reference":["C15","C03"],"C04-flush-gate-orders-ids-with-words-swapped":["C04","C08"],"C02-replaced-entrys-group-uncounted-in-new-entrys-instance":["C02","C03"],"C19-get-check-lets-a-group-stand-in-for-a-next-hop":["C19","C17"],"C01-flush-of-several-instances-takes-the-transaction-lock-per-instance":["C01","C02","C11"]}
 rows=[]
 for sid in ids:
     meta=json.load(open(f"{V}/seeded/{sid}/meta.json"))
